@@ -40,11 +40,10 @@ func runC09(c *core.Ctx) {
 			if !ok {
 				return
 			}
-			mc, ok := g.Call.Value.(*ssa.MakeClosure)
-			if !ok {
+			cl := callTarget(p, &g.Call)
+			if cl == nil {
 				return
 			}
-			cl := mc.Fn.(*ssa.Function)
 			recvJob := false
 			core.Instrs(cl, func(i2 ssa.Instruction) {
 				if call, isC := i2.(*ssa.Call); isC {
@@ -116,9 +115,9 @@ func runC09(c *core.Ctx) {
 			var def *ssa.Defer
 			core.Instrs(body, func(ins ssa.Instruction) {
 				if d, isD := ins.(*ssa.Defer); isD {
-					if mc, isMC := d.Call.Value.(*ssa.MakeClosure); isMC {
+					if dt := callTarget(p, &d.Call); dt != nil {
 						rec := false
-						core.Instrs(mc.Fn.(*ssa.Function), func(i2 ssa.Instruction) {
+						core.Instrs(dt, func(i2 ssa.Instruction) {
 							if call, isC := i2.(*ssa.Call); isC && core.IsBuiltin(&call.Call, "recover") {
 								rec = true
 							}
@@ -135,7 +134,7 @@ func runC09(c *core.Ctx) {
 			if !core.InstrDominates(def, jobCall) {
 				return false, "the recover-defer is registered after the job call on some path"
 			}
-			exit := def.Call.Value.(*ssa.MakeClosure).Fn.(*ssa.Function)
+			exit := callTarget(p, &def.Call)
 			// handler call: exactly once on recovered != nil && handler != nil, with the recovered value
 			var rec *ssa.Call
 			core.Instrs(exit, func(ins ssa.Instruction) {
@@ -203,10 +202,8 @@ func runC09(c *core.Ctx) {
 				}
 				// followed by exactly one go of the worker body
 				min, max := core.PathCountFrom(ins.Block(), ins, func(i2 ssa.Instruction) int {
-					if g, isG := i2.(*ssa.Go); isG {
-						if mc, isMC := g.Call.Value.(*ssa.MakeClosure); isMC && mc.Fn == ssa.Value(body) {
-							return 1
-						}
+					if g, isG := i2.(*ssa.Go); isG && callTarget(p, &g.Call) == body {
+						return 1
 					}
 					return 0
 				}, nil)
@@ -220,8 +217,8 @@ func runC09(c *core.Ctx) {
 		var exit *ssa.Function
 		core.Instrs(body, func(ins ssa.Instruction) {
 			if d, isD := ins.(*ssa.Defer); isD {
-				if mc, isMC := d.Call.Value.(*ssa.MakeClosure); isMC {
-					exit = mc.Fn.(*ssa.Function)
+				if dt := callTarget(p, &d.Call); dt != nil {
+					exit = dt
 				}
 			}
 		})
@@ -352,8 +349,23 @@ func runC09(c *core.Ctx) {
 				}
 			})
 		}
-		sizing := p.Method(p.Worker, "DefaultWorkerPool", "trySpawn")
-		if len(cons) == 0 || sizing == nil {
+		// a sizing pass = a call that can reach the function which starts workers
+		spawnRoot := spawner
+		for spawnRoot != nil && spawnRoot.Parent() != nil {
+			spawnRoot = spawnRoot.Parent()
+		}
+		reaches := map[*ssa.Function]bool{}
+		isSizing := func(g *ssa.Function) bool {
+			if g == nil || !p.InRepo(g) {
+				return false
+			}
+			if v, ok := reaches[g]; ok {
+				return v
+			}
+			reaches[g] = g == spawnRoot || core.Reachable(p, g)[spawnRoot]
+			return reaches[g]
+		}
+		if len(cons) == 0 || spawnRoot == nil {
 			c.Unknown("R5", "spawn-requests", "-", "no consumer of the spawn-request channel / no sizing pass found")
 		} else {
 			isCons := map[ssa.Instruction]bool{}
@@ -381,7 +393,7 @@ func runC09(c *core.Ctx) {
 				}
 				ok, bad := core.MustPassBefore(k.ins, func(ins ssa.Instruction) bool {
 					call, isC := ins.(*ssa.Call)
-					return isC && core.Callee(&call.Call) == sizing
+					return isC && isSizing(core.Callee(&call.Call))
 				}, func(ins ssa.Instruction) bool { return isCons[ins] }, skip)
 				where := ""
 				if bad != nil {
@@ -427,14 +439,10 @@ func runC09(c *core.Ctx) {
 			}
 			// result mapping
 			fullOK, passOK := false, false
-			core.Instrs(sched, func(ins ssa.Instruction) {
-				r, isR := ins.(*ssa.Return)
-				if !isR || r.Block() == sched.Recover {
-					return
-				}
-				v := core.Resolve(core.RetVals(r)[0])
+			for _, rc := range core.ReturnCases(sched) {
+				v := core.Resolve(rc.Vals[0])
 				isFullEdge, isNotFullEdge := false, false
-				for _, m := range core.EdgeCmps(r.Block()) {
+				for _, m := range rc.Cmps() {
 					if core.Resolve(m.X) == ssa.Value(offer) && core.GlobalName(m.Y) == "ErrQueueIsFull" {
 						if m.Op == token.EQL {
 							isFullEdge = true
@@ -449,7 +457,12 @@ func runC09(c *core.Ctx) {
 				if isNotFullEdge && v == ssa.Value(offer) {
 					passOK = true
 				}
-			})
+				if isFullEdge && v == ssa.Value(offer) {
+					fullOK = false
+					passOK = false
+					break // the queue's own "full" sentinel leaks out
+				}
+			}
 			if !fullOK || !passOK {
 				return false, fmt.Sprintf("result mapping broken: ErrQueueIsFull→ErrWorkerPoolJobQueueIsFull=%v, other results passed through=%v (a rejected job could be reported as accepted)", fullOK, passOK)
 			}
@@ -462,55 +475,68 @@ func runC09(c *core.Ctx) {
 	} else {
 		c.Analysed(core.FuncName(swt))
 		bad := ""
-		core.Instrs(swt, func(ins ssa.Instruction) {
+		group := map[*ssa.Function]bool{}
+		for _, g := range core.Group(p, swt) {
+			group[g] = true
+		}
+		job := ssa.Value(swt.Params[1])
+		core.InstrsGroup(p, swt, func(fn *ssa.Function, ins ssa.Instruction) {
 			switch x := ins.(type) {
 			case *ssa.Call:
-				if x.Call.Value == ssa.Value(swt.Params[1]) {
+				if core.ResolveIP(p, x.Call.Value) == job {
 					bad = "invokes the job itself"
 				}
 			case *ssa.Go:
 				bad = "starts a goroutine"
 			case *ssa.Return:
-				if x.Block() == swt.Recover {
+				if x.Block() == fn.Recover || fn.Signature.Results().Len() == 0 {
 					return
 				}
-				v := core.Resolve(core.RetVals(x)[0])
-				switch {
-				case core.GlobalName(v) == "ErrWorkerPoolIsClosed":
-				case core.GlobalName(v) == "ErrWorkerPoolScheduleTimeout":
-					// after the deadline test
-					okT := false
-					for _, cnd := range core.EdgeFacts(x.Block()) {
-						n := core.Normalize(cnd)
-						if call, isC := n.V.(*ssa.Call); isC && core.StdCallee(&call.Call) == "time.(Time).After" && n.True {
-							okT = true
-						}
+				if fn != swt && !returnedToRoot(p, swt, x) {
+					return // a helper whose result is not what ScheduleWithTimeout returns (e.g. the retry interval)
+				}
+				for _, rc := range core.ReturnCases(fn) {
+					if rc.Ret != x {
+						continue
 					}
-					if !okT {
-						bad = "returns ErrWorkerPoolScheduleTimeout without the deadline having passed"
-					}
-				default:
-					okS := false
-					if call, isC := v.(*ssa.Call); isC && core.Callee(&call.Call) == sched {
-						okS = true
-					}
-					if phi, isPhi := v.(*ssa.Phi); isPhi {
-						okS = true
-						for _, e := range phi.Edges {
-							if call, isC := e.(*ssa.Call); !isC || core.Callee(&call.Call) != sched {
-								okS = false
+					v := core.Resolve(rc.Vals[len(rc.Vals)-1])
+					switch {
+					case core.GlobalName(v) == "ErrWorkerPoolIsClosed":
+					case core.GlobalName(v) == "ErrWorkerPoolScheduleTimeout":
+						// after the deadline test
+						okT := false
+						for _, cnd := range rc.Facts {
+							n := core.Normalize(cnd)
+							if call, isC := n.V.(*ssa.Call); isC && core.StdCallee(&call.Call) == "time.(Time).After" && n.True {
+								okT = true
 							}
 						}
-					}
-					if !okS {
-						bad = "returns a value that is not a result of Schedule at " + p.InstrPos(x)
+						if !okT {
+							bad = "returns ErrWorkerPoolScheduleTimeout without the deadline having passed"
+						}
+					default:
+						okS := false
+						if call, isC := v.(*ssa.Call); isC && (core.Callee(&call.Call) == sched || group[core.Callee(&call.Call)] && core.Callee(&call.Call) != fn) {
+							okS = true // Schedule's result, or the result of a helper of the group (its own returns are checked)
+						}
+						if phi, isPhi := v.(*ssa.Phi); isPhi {
+							okS = true
+							for _, e := range phi.Edges {
+								if call, isC := core.Resolve(e).(*ssa.Call); !isC || core.Callee(&call.Call) != sched {
+									okS = false
+								}
+							}
+						}
+						if !okS {
+							bad = "returns a value that is not a result of Schedule at " + p.InstrPos(x)
+						}
 					}
 				}
 			}
 		})
 		// every Schedule call passes the same job
-		core.Instrs(swt, func(ins ssa.Instruction) {
-			if call, isC := ins.(*ssa.Call); isC && core.Callee(&call.Call) == sched && call.Call.Args[1] != ssa.Value(swt.Params[1]) {
+		core.InstrsGroup(p, swt, func(_ *ssa.Function, ins ssa.Instruction) {
+			if call, isC := ins.(*ssa.Call); isC && core.Callee(&call.Call) == sched && core.ResolveIP(p, call.Call.Args[1]) != job {
 				bad = "retries with a different job"
 			}
 		})
